@@ -610,7 +610,7 @@ func run(c *hl.Ctx) error {
 		c.Count("corpus")
 	}
 	runJobs(c, jobs)
-	total := c.Pick(200, 15000)
+	total := c.Pick(200, 4000)
 	if c.Search && c.Tier != "thorough" {
 		total = 800
 	}
